@@ -41,6 +41,8 @@ pub fn knobs(profile: &str) -> Knobs {
         "bigcel" => Knobs { max_wh: 5, max_layers: 2, max_frames: 1, meta: false, tiles: false, links: false, groups: false, max_cel: 320, ..base },
         // one or two layers only: almost every frame has exactly one contributing layer (C19's second clause)
         "single" => Knobs { max_wh: 6, max_layers: 2, max_frames: 3, meta: false, max_cel: 5, align_tiles: false, ..base },
+        // many cels / tilesets per sprite, mostly indexed (seeds for faults applied to every chunk of a kind at once)
+        "manycels" => Knobs { max_wh: 4, max_layers: 6, max_frames: 6, depths: vec![8, 8, 16, 32], meta: false, max_cel: 3, ..base },
         "bigmap" => Knobs { max_wh: 6, max_layers: 2, max_frames: 1, meta: false, links: false, groups: false, bigmap: true, ..base },
         "long" => Knobs { max_wh: 2, max_layers: 3, max_frames: 3000, max_cel: 2, tiles: false, ..base },
         "wide" => Knobs { max_wh: 2, max_layers: 300, max_frames: 2, max_cel: 2, tiles: false, ..base },
@@ -1077,7 +1079,11 @@ pub fn faults_cmd(args: &[String]) {
                 for f in enc.fields.iter().filter(|f| f.width > 0 && matches!(f.class, "dim" | "size" | "count" | "len")) {
                     let parts: Vec<&str> = f.name.split('.').collect();
                     if parts.len() >= 4 && parts[1].starts_with('c') {
-                        groups.entry((parts[2].to_string(), parts[3..].join("."))).or_default().push(f);
+                        // cels of one storage kind, layers of one type: the kind is refined by the chunk's own type field
+                        let prefix = parts[..3].join(".");
+                        let variant = enc.fields.iter().find(|g| g.name == format!("{}.ctype", prefix) || g.name == format!("{}.ltype", prefix))
+                            .map_or(String::new(), |g| format!("#{}", read_le(&bytes, g.off, g.width)));
+                        groups.entry((format!("{}{}", parts[2], variant), parts[3..].join("."))).or_default().push(f);
                     }
                 }
                 let kinds: std::collections::BTreeSet<String> = groups.keys().map(|k| k.0.clone()).collect();
